@@ -169,6 +169,7 @@ type rewriter struct {
 	changed bool
 	locks   int
 	yields  int
+	syncs   int
 }
 
 // mutexMethod reports which sync.Mutex / sync.RWMutex method a call invokes ("" if none).
@@ -270,9 +271,72 @@ func (rw *rewriter) lockCall(recv ast.Expr, method string, pos token.Pos) *ast.C
 	return simrtCall("Lock", fn, rw.site(pos))
 }
 
+// syncPoint reports whether evaluating the statement itself (not the blocks nested in it) performs a synchronisation
+// operation other than a mutex lock / unlock: a call into sync or sync/atomic (sync.Map, Once, WaitGroup, Pool, Cond,
+// atomic.*), a channel send / receive / close. For data-race-free code these are the only places where another thread's
+// actions can become visible, so they are where the scheduler must be able to switch.
+func (rw *rewriter) syncPoint(s ast.Stmt) bool {
+	found := false
+	var visit func(n ast.Node) bool
+	visit = func(n ast.Node) bool {
+		if found {
+			return false
+		}
+		switch x := n.(type) {
+		case *ast.BlockStmt, *ast.FuncLit, *ast.CaseClause, *ast.CommClause:
+			return false
+		case *ast.SendStmt:
+			found = true
+		case *ast.UnaryExpr:
+			if x.Op == token.ARROW {
+				found = true
+			}
+		case *ast.CallExpr:
+			if id, ok := x.Fun.(*ast.Ident); ok && id.Name == "close" {
+				if _, isBuiltin := rw.pkg.TypesInfo.Uses[id].(*types.Builtin); isBuiltin {
+					found = true
+				}
+			}
+			var fn *types.Func
+			switch f := x.Fun.(type) {
+			case *ast.SelectorExpr:
+				fn, _ = rw.pkg.TypesInfo.Uses[f.Sel].(*types.Func)
+			case *ast.Ident:
+				fn, _ = rw.pkg.TypesInfo.Uses[f].(*types.Func)
+			}
+			if fn != nil && fn.Pkg() != nil && (fn.Pkg().Path() == "sync" || fn.Pkg().Path() == "sync/atomic") {
+				if _, m := rw.mutexMethod(x); m == "" {
+					found = true
+				}
+			}
+		}
+		return !found
+	}
+	switch st := s.(type) {
+	case *ast.IfStmt:
+		if st.Init != nil {
+			ast.Inspect(st.Init, visit)
+		}
+		ast.Inspect(st.Cond, visit)
+	case *ast.ForStmt, *ast.RangeStmt, *ast.SwitchStmt, *ast.TypeSwitchStmt, *ast.SelectStmt, *ast.BlockStmt, *ast.LabeledStmt, *ast.DeferStmt, *ast.GoStmt:
+		// loops / switches: their bodies are statement lists of their own; deferred calls run elsewhere
+	default:
+		ast.Inspect(s, visit)
+	}
+	return found
+}
+
 func (rw *rewriter) stmts(list []ast.Stmt) []ast.Stmt {
 	var out []ast.Stmt
 	for _, s := range list {
+		if rw.syncPoint(s) {
+			p := rw.fset.Position(s.Pos())
+			out = append(out, &ast.ExprStmt{X: simrtCall("Yield", &ast.BasicLit{Kind: token.STRING,
+				Value: strconv.Quote(fmt.Sprintf("sp %s/%s:%d", rw.short, filepath.Base(p.Filename), p.Line))})})
+			rw.yields++
+			rw.syncs++
+			rw.changed = true
+		}
 		switch st := s.(type) {
 		case *ast.ExprStmt:
 			if call, ok := st.X.(*ast.CallExpr); ok {
